@@ -745,6 +745,10 @@ class NpModule(object):
         t['linalg'] = I.PyModule('numpy.linalg', {'norm': ip.Builtin('np.linalg.norm', self.f_norm)})
 
     def pv_getattr(self, I, fr, name):
+        ov = getattr(fr.st, 'np_overrides', None) if fr is not None else None
+        if ov and name in ov:
+            f = ov[name]
+            return ip.Builtin('np.' + name, lambda I_, fr_, a, k, f=f: f(I_, fr_, *a, **k))
         if fr is not None and getattr(fr.st, 'object_arrays', False):
             from . import objnp
             if not hasattr(self, '_objnp'):
